@@ -36,8 +36,8 @@ theorem cap1_decode_spec (v : Spec.Cap1) : DcmiCap1.decode v.encode = .ok (cap1V
     simp [Spec.Cap1.encode, hv, Spec.DcmiVersion.header, Spec.DcmiVersion.isV10, DcmiCap1.build, DcmiHeader.ofBytes,
       DcmiHeader.isV10, e0, e1, e2, e3]
 
-example : DcmiCap1.decode (Spec.Cap1.encode ⟨.v10, true, false, true, false, true, false, true, false, true, false, true⟩)
-    = .ok (cap1View ⟨.v10, true, false, true, false, true, false, true, false, true, false, true⟩) := cap1_decode_spec _
+example : DcmiCap1.decode (Spec.Cap1.encode ⟨.v10 1, true, false, true, false, true, false, true, false, true, false, true⟩)
+    = .ok (cap1View ⟨.v10 1, true, false, true, false, true, false, true, false, true, false, true⟩) := cap1_decode_spec _
 
 /-- header (3) + 3 capability bytes is the minimum -/
 theorem cap1_short (b : Bytes) (h : b.length < 6) : DcmiCap1.decode b = .error () := by
@@ -80,7 +80,7 @@ theorem cap2_decode_spec (v : Spec.Cap2) (h : v.wf) : DcmiCap2.decode v.encode =
     simp [Spec.Cap2.encode, hv, Spec.DcmiVersion.header, Spec.DcmiVersion.isV10, DcmiCap2.build, DcmiHeader.ofBytes,
       DcmiHeader.isV10, e0, e1, e2, e3, e4, e5, e6]
 
-example : (⟨.v15, true, false, true, 0x0a05, false, false, false, false, false, false, 15⟩ : Spec.Cap2).wf := by decide
+example : (⟨.v15 2, true, false, true, 0x0a05, false, false, false, false, false, false, 15⟩ : Spec.Cap2).wf := by decide
 
 /-- the "4-byte body ⇒ v1.0 layout" rule the repository's tests pin (SuperMicro: v1.1 header, v1.0 body): whatever
     the three header bytes say, a response with exactly four body bytes is read with the v1.0 layout -/
@@ -111,7 +111,7 @@ theorem cap3_decode_spec (v : Spec.Cap3) (h : v.wf) : DcmiCap3.decode v.encode =
   unfold DcmiCap3.decode cap3View dcmiHeaderView
   cases hv : v.ver <;> simp [Spec.Cap3.encode, hv, Spec.DcmiVersion.header, DcmiHeader.ofBytes, e0, e1]
 
-example : (⟨.v15, 0x10, 0x0f, 3⟩ : Spec.Cap3).wf := by decide
+example : (⟨.v15 2, 0x10, 0x0f, 3⟩ : Spec.Cap3).wf := by decide
 
 theorem cap3_short (b : Bytes) (h : b.length < 5) : DcmiCap3.decode b = .error () := by
   unfold DcmiCap3.decode
@@ -130,7 +130,7 @@ theorem cap4_decode_spec (v : Spec.Cap4) : DcmiCap4.decode v.encode = .ok (cap4V
   unfold DcmiCap4.decode cap4View dcmiHeaderView
   cases hv : v.ver <;> simp [Spec.Cap4.encode, hv, Spec.DcmiVersion.header, DcmiHeader.ofBytes]
 
-example : DcmiCap4.decode (Spec.Cap4.encode ⟨.v15, 1, 0xff, 3⟩) = .ok (cap4View ⟨.v15, 1, 0xff, 3⟩) := cap4_decode_spec _
+example : DcmiCap4.decode (Spec.Cap4.encode ⟨.v15 9, 1, 0xff, 3⟩) = .ok (cap4View ⟨.v15 9, 1, 0xff, 3⟩) := cap4_decode_spec _
 
 theorem cap4_short (b : Bytes) (h : b.length < 6) : DcmiCap4.decode b = .error () := by
   unfold DcmiCap4.decode
@@ -162,7 +162,7 @@ theorem cap5_decode_spec (v : Spec.Cap5) (h : v.wf) : DcmiCap5.decode v.encode =
   cases hv : v.ver <;>
     simp [Spec.Cap5.encode, hv, Spec.DcmiVersion.header, DcmiHeader.ofBytes, e0, e1, e2, ht, hd, c1, c2]
 
-example : (⟨.v15, [⟨0, 42⟩, ⟨3, 21⟩, ⟨2, 51⟩, ⟨1, 12⟩, ⟨0, 0⟩]⟩ : Spec.Cap5).wf := by
+example : (⟨.v15 2, [⟨0, 42⟩, ⟨3, 21⟩, ⟨2, 51⟩, ⟨1, 12⟩, ⟨0, 0⟩]⟩ : Spec.Cap5).wf := by
   refine ⟨by decide, ?_⟩
   intro p hp
   simp at hp
